@@ -542,7 +542,7 @@ def parse_roots(ctx: Ctx) -> List[str]:
     pm = m.module('hpl.parser', 'X3a')
     roots = [f.key for n, f in pm.functions.items() if n.startswith('parse_')]
     pt = m.cls('PropertyTransformer', 'X3a')
-    roots += [f.key for f in pt.methods.values()]
+    roots += [f.key for k in pt.mro() for f in k.methods.values()]
     hp = m.cls('HplParser', 'X3a')
     roots += [f.key for f in hp.methods.values()]
     return roots
@@ -617,7 +617,11 @@ def X3b(ctx: Ctx) -> RuleResult:
 
 def _public_roots(mod):
     """name -> the public functions of the module from which it is reachable (itself when public)"""
-    calls = {f.name: {mod.functions[x.id].name for x in ast.walk(f.node) if isinstance(x, ast.Name) and x.id in mod.functions and mod.functions[x.id] is not f} for f in mod.functions.values()}
+    # module-level tables of functions (dispatch by kind): whoever reads the table may call what it holds
+    tables = {name: {mod.functions[x.id].name for x in ast.walk(val) if isinstance(x, ast.Name) and x.id in mod.functions}
+              for name, val in mod.assigns.items() if isinstance(val, (ast.Dict, ast.Tuple, ast.List, ast.Call))}
+    calls = {f.name: {mod.functions[x.id].name for x in ast.walk(f.node) if isinstance(x, ast.Name) and x.id in mod.functions and mod.functions[x.id] is not f}
+             | {g for x in ast.walk(f.node) if isinstance(x, ast.Name) and x.id in tables for g in tables[x.id] if g != f.name} for f in mod.functions.values()}
     callers: Dict[str, Set[str]] = {k: set() for k in calls}
     for k, vs in calls.items():
         for v in vs:
@@ -750,8 +754,22 @@ def X4(ctx: Ctx) -> RuleResult:
     need = {'UnexpectedToken', 'UnexpectedCharacters'}
     guard_tries: List[ast.Try] = []
 
-    def enclosing(f0: FunctionInfo, node: ast.AST) -> List[ast.Try]:
-        return [t for t in ast.walk(f0.node) if isinstance(t, ast.Try) and any(node is x for b in t.body for x in ast.walk(b))]
+    def enclosing(f0: FunctionInfo, node: ast.AST) -> List[Tuple[FunctionInfo, ast.Try]]:
+        out = [(f0, t) for t in ast.walk(f0.node) if isinstance(t, ast.Try) and any(node is x for b in t.body for x in ast.walk(b))]
+        # `with helper():` around the node, helper being a @contextmanager generator of the package: the try statements
+        # around its `yield` are around the node
+        for w in ast.walk(f0.node):
+            if isinstance(w, ast.With) and any(node is x for b in w.body for x in ast.walk(b)):
+                for item in w.items:
+                    ce = item.context_expr
+                    if isinstance(ce, ast.Call) and isinstance(ce.func, ast.Name):
+                        res = ctx.model.resolve_name(f0.module, ce.func.id)
+                        cm = res[1] if res and res[0] == 'func' else None
+                        if cm is not None and any(d.split('(')[0].split('.')[-1] == 'contextmanager' for d in cm.decorators):
+                            for y in ast.walk(cm.node):
+                                if isinstance(y, ast.Yield):
+                                    out.extend(enclosing(cm, y))
+        return out
 
     def handler_names(f0: FunctionInfo, h: ast.ExceptHandler) -> Set[str]:
         if h.type is None:
@@ -763,8 +781,8 @@ def X4(ctx: Ctx) -> RuleResult:
 
     def paths(f0: FunctionInfo, node: ast.AST, depth: int = 0) -> List[List[Tuple[FunctionInfo, ast.ExceptHandler]]]:
         """for every way control reaches `node` from parse: the handlers that enclose it"""
-        own = [(f0, h) for t in enclosing(f0, node) for h in t.handlers]
-        guard_tries.extend(enclosing(f0, node))
+        own = [(ft, h) for ft, t in enclosing(f0, node) for h in t.handlers]
+        guard_tries.extend(t for _, t in enclosing(f0, node))
         if f0 is fi or depth > 3:
             return [own]
         res = []
@@ -922,7 +940,7 @@ def X6(ctx: Ctx) -> RuleResult:
     pt = ctx.model.cls('PropertyTransformer', 'X6')
     hp = ctx.model.cls('HplParser', 'X6')
     n = 0
-    for c in (pt, hp):
+    for c in [k for k in pt.mro()] + [hp]:
         for fi in c.methods.values():
             n += 1
             bad = _self_mutations(fi)
@@ -934,7 +952,7 @@ def X6(ctx: Ctx) -> RuleResult:
         for name, node in c.class_assigns.items():
             if isinstance(node, (ast.List, ast.Dict, ast.Set)) or (isinstance(node, ast.Call) and ast.unparse(node.func) in ('list', 'dict', 'set', 'defaultdict')):
                 r.fail(f'{c.name}.{name}', f'class-level mutable attribute {name} is shared by every parser', c.where)
-        if '__init__' in c.methods and c is pt:
+        if '__init__' in c.methods and c in pt.mro():
             r.fail('PropertyTransformer.__init__', 'the transformer defines instance state in __init__', c.methods['__init__'].where)
     if not hp.is_frozen:
         r.fail('HplParser:frozen', 'HplParser is not frozen', hp.where)
@@ -1252,8 +1270,12 @@ def X3c(ctx: Ctx) -> RuleResult:
     # module call graph: a site is identified by the public entry point(s) that reach it, so that moving the site into a
     # private helper does not change its identity
     calls: Dict[str, Set[str]] = {}
+    # module-level tables of functions (dispatch by kind): whoever reads the table may call what it holds
+    tables = {name: {mod.functions[x.id].name for x in ast.walk(val) if isinstance(x, ast.Name) and x.id in mod.functions}
+              for name, val in mod.assigns.items() if isinstance(val, (ast.Dict, ast.Tuple, ast.List, ast.Call))}
     for fn in mod.functions.values():
-        calls[fn.name] = {mod.functions[x.id].name for x in ast.walk(fn.node) if isinstance(x, ast.Name) and x.id in mod.functions and mod.functions[x.id] is not fn}
+        calls[fn.name] = {mod.functions[x.id].name for x in ast.walk(fn.node) if isinstance(x, ast.Name) and x.id in mod.functions and mod.functions[x.id] is not fn} \
+            | {g for x in ast.walk(fn.node) if isinstance(x, ast.Name) and x.id in tables for g in tables[x.id] if g != fn.name}
     callers: Dict[str, Set[str]] = {k: set() for k in calls}
     for k, vs in calls.items():
         for v in vs:
